@@ -1,6 +1,7 @@
 import Driver.Util
 import AslModel.Model.P2Hex
 import AslModel.Spec.HexImage
+import AslModel.Spec.HexFamilies
 /-! Driver mode `c06`: one p2hex run per request line.
 
 request : `<codefile hex> <real output text hex|-> key=value*`
@@ -182,6 +183,38 @@ def handle (line : String) : String :=
             s!"model={if meq then "eq" else "ne"} decode={if v.decode then "ok" else "bad"} why={v.why} cells={if v.cells then "eq" else "ne"} entry={if v.entry then "ok" else "bad"} mdecode={if mv.decode then "ok" else "bad"} mcells={if mv.cells then "eq" else "ne"} nlines={out.lines.length} ngroups={out.groups.length} ncells={v.ncells} ov={out.overflow} fmt={repr f}" ++
               (if meq then "" else diffLine out.lines (splitRaw real) 0)
     | _, _, _ => "bad-request"
+  | _ => "bad-request"
+
+/-! Driver mode `c06fam`: default format per family, SPEC side.
+
+request : `<family id> <first line of the real output, hex>`
+answer  : `spec=<srec|mos|dsk|atmel|intel|none> seen=<srec|mos|dsk|atmel|intel|unknown>`
+ * spec – `HexFamilies.manualDefault` (doc/utility-programs.md + doc/file-formats.md)
+ * seen – which public line reader accepts the first line the real p2hex wrote without `-F`
+          (`K_DSKA_…` is the header line of the TI DSK format)
+-/
+def className : AslModel.HexFamilies.DefClass → String
+  | .srec => "srec" | .mos => "mos" | .dsk => "dsk" | .atmel => "atmel" | .intel => "intel"
+
+def seenClass (l : Hex.Line) : String :=
+  if (Hex.srecLine l).isSome then "srec"
+  else if (Hex.ihexLine l).isSome then "intel"
+  else if (Hex.mosLine l).isSome then "mos"
+  else if (Hex.atmelLine 6 l).isSome then "atmel"
+  else if l.take 6 == "K_DSKA".toList then "dsk"
+  else "unknown"
+
+def handleFam (line : String) : String :=
+  match words line with
+  | [c, lh] =>
+    match c.toNat?, unhex lh with
+    | some cpu, some lb =>
+      let l : List Char := lb.map (fun x => Char.ofNat x.toNat)
+      let sp := match AslModel.HexFamilies.manualDefault cpu with
+        | some k => className k
+        | none => "none"
+      s!"spec={sp} seen={seenClass l}"
+    | _, _ => "bad-request"
   | _ => "bad-request"
 
 end Driver.C06
